@@ -333,7 +333,7 @@ def r01_5(ctx, A):
                         lt = dict(v[2][0][1][2]) if v[2][0][1][0] == 'agg' else {}
                         inp0 = lt.get('inp', ('x',))
                         first_byte = (inp0[0] == 'index' and inp0[2] in (('const', 0), '[0]')) or \
-                            any(is_call(x, '::split_first') or is_call(x, '::first') for x in walk(inp0))
+                            any(is_call(x, '::split_first') or is_call(x, '::first') for x in walk(inp0)) or _first_next(inp0, f)
                         first = lt.get('out') == ('param', f.local_name(3), 3) and first_byte
             for (k, bid, callee, args, t) in path_calls(p):
                 if isinstance(callee, str) and callee.endswith('::push') and args[1][0] == 'agg':
@@ -387,6 +387,54 @@ def r01_4(ctx, A):
     C15.funnel(ctx, A, R)
 
 
+def _first_next(e, f):
+    """e is the payload of the FIRST next() of a fresh forward iterator over the key-suffix parameter (bs.iter().copied().next())."""
+    while e[0] in ('field', 'variant', 'cast'):
+        e = e[1]
+    if not is_call(e, '::next') or not e[2]:
+        return False
+    it = e[2][0]
+    ok_calls = ('::iter', '::copied', '::cloned', '::into_iter', '::by_ref', '::peekable', '::deref')
+    for x in walk(it):
+        if x[0] == 'after' or x[0] == 'phi' or x[0] == 'havoc':
+            return False
+        if x[0] == 'call' and not (isinstance(x[1], str) and x[1].endswith(ok_calls)):
+            return False
+    return any(x[0] == 'param' and x[2] == 2 for x in walk(it))
+
+
+def r01_6(ctx):
+    """every node fan-out from 0 to 256: a position among the transitions of a node runs from 0 to 256 INCLUSIVE (one past the last of a
+    full node), so the DFS frame field that holds it must be wider than a byte"""
+    R = ctx.rule('R01.6', 'the enumeration cursor of a DFS frame can hold 256 (one past the last transition of a full node)', floor=1)
+    lib = ctx.lib
+    frames = [(k, a) for k, a in lib.adts.items() if a.get('kind') == 'Struct' and a['variants'] and any(fd['ty'].startswith('raw::node::Node<') for fd in a['variants'][0]['fields'])]
+    ints = {'u8': 8, 'i8': 8, 'u16': 16, 'i16': 16, 'u32': 32, 'i32': 32, 'u64': 64, 'i64': 64, 'usize': 64, 'isize': 64, 'u128': 128, 'i128': 128}
+    n = 0
+    for k, a in frames:
+        for fd in a['variants'][0]['fields']:
+            if fd['ty'] not in ints:
+                continue
+            users = [f for f in lib.fn_list if not f.from_expansion and any(True for _ in f.field_accesses(k, fd['name']))]
+            cursor = False
+            for f in users:
+                for q in explore(f, max_visits=1, havoc=True, limit=200):
+                    for (kk, bid, callee, args, t) in path_calls(q, expand=False):
+                        if isinstance(callee, str) and callee.endswith("Node::<'f>::transition") and len(args) == 2 and any(x[0] == 'field' and x[2] == fd['name'] for x in walk(args[1])):
+                            cursor = True
+                    if cursor:
+                        break
+                if cursor:
+                    break
+            if not cursor:
+                continue
+            n += 1
+            ctx.check(R, ints[fd['ty']] > 8 and not fd['ty'].startswith('i8'), 'cursor-width:%s.%s' % (k, fd['name']),
+                      '%s.%s indexes the transitions of a node but is a %s: a node with 256 transitions needs the position 256 (one past the end) to finish, which does not fit - the enumeration of a full node overflows or never ends' % (k, fd['name'], fd['ty']))
+    if n == 0:
+        ctx.undecided(R, 'cursor-width', 'no DFS frame field used as a transition index was recognised')
+
+
 def run(ctx):
     lib = ctx.lib
     A = Anchors(lib)
@@ -417,3 +465,7 @@ def run(ctx):
     ctx.step(formatrules.form_selection, ctx)
     ctx.rule('R12.2', 'a refreshed cache cell holds exactly the probe node (clone_from copies finality, final output and REPLACES the transitions)', floor=1)
     ctx.step(C12.node_copy, ctx, 'R12.2')
+    # the enumeration's observation points (into_byte_vec, into_str_vec, ...) hand back the streamed items themselves (shared with C03)
+    import rules.C03 as C03
+    ctx.step(C03.r03_7, ctx)
+    ctx.step(r01_6, ctx)
